@@ -1,9 +1,11 @@
 package chk
 
 import (
+	"fmt"
 	"go/ast"
 	"go/token"
 	"go/types"
+	"os"
 	"sort"
 	"strings"
 )
@@ -697,8 +699,92 @@ func (la *LockAnalysis) CheckGuarded(fld, lock *types.Var, exempt map[string]boo
 			ga.OK = true
 		}
 		out = append(out, ga)
+		// the guarded map / slice / pointer taken into a local under the lock (`m := x.f`): the local is the same shared
+		// storage, so every later use of it needs the lock as well (a "snapshot" of a map header is not a copy)
+		if os.Getenv("MLB_DEBUG_ALIAS") != "" && fld.Name() == os.Getenv("MLB_DEBUG_ALIAS") {
+			fmt.Fprintf(os.Stderr, "access %s kind=%s fn=%s alias=%v\n", la.Prog.Fset.Position(a.Sel.Pos()), a.Kind, a.Fn.Name(), la.aliasLocal(a))
+		}
+		if (a.Kind == "read" || a.Kind == "escape") && refLike(fld.Type()) {
+			if v := la.aliasLocal(a); v != nil {
+				ast.Inspect(a.Fn.Body, func(n ast.Node) bool {
+					id, isId := n.(*ast.Ident)
+					if !isId || a.Fn.Info().Uses[id] != types.Object(v) || id.Pos() < a.Sel.End() {
+						return true
+					}
+					h := la.HeldAt(a.Fn, id)
+					if h == nil {
+						return true
+					}
+					if _, okH := h[lock]; !okH {
+						sel := &ast.SelectorExpr{X: a.Sel.X, Sel: &ast.Ident{NamePos: id.Pos(), Name: a.Sel.Sel.Name}}
+						out = append(out, GuardedAccess{Access: Access{Fn: a.Fn, Sel: sel, Kind: "alias:" + v.Name(), Stmt: id}, Held: h,
+							Why: "the local " + v.Name() + " aliases the guarded value and is used after lock " + lock.Name() + " was released (held: " + DescribeLocks(h) + ")"})
+					}
+					return true
+				})
+			}
+		}
 	}
 	return out
+}
+
+func refLike(t types.Type) bool {
+	switch t.Underlying().(type) {
+	case *types.Map, *types.Slice, *types.Pointer, *types.Chan:
+		return true
+	}
+	return false
+}
+
+// aliasLocal: the read of the field is, as a whole, the value assigned to a local variable (`v := x.f`, `v, w := x.f,
+// x.g`, `var v = x.f`): it returns v.
+func (la *LockAnalysis) aliasLocal(a Access) *types.Var {
+	p := la.Prog
+	var e ast.Expr = a.Sel
+	for {
+		par, ok := p.parents[e].(*ast.ParenExpr)
+		if !ok {
+			break
+		}
+		e = par
+	}
+	info := a.Fn.Info()
+	obj := func(l ast.Expr) *types.Var {
+		id, ok := l.(*ast.Ident)
+		if !ok || id.Name == "_" {
+			return nil
+		}
+		var o types.Object = info.Defs[id]
+		if o == nil {
+			o = info.Uses[id]
+		}
+		v, _ := o.(*types.Var)
+		if v == nil || v.IsField() || v.Pkg() == nil || v.Parent() == v.Pkg().Scope() {
+			return nil
+		}
+		return v
+	}
+	switch st := p.parents[e].(type) {
+	case *ast.AssignStmt:
+		if len(st.Lhs) != len(st.Rhs) {
+			return nil
+		}
+		for i, r := range st.Rhs {
+			if r == e {
+				return obj(st.Lhs[i])
+			}
+		}
+	case *ast.ValueSpec:
+		if len(st.Names) != len(st.Values) {
+			return nil
+		}
+		for i, r := range st.Values {
+			if r == e {
+				return obj(st.Names[i])
+			}
+		}
+	}
+	return nil
 }
 
 func mutatingName(n string) bool {
